@@ -6,6 +6,8 @@ import (
 	"fmt"
 	"math"
 	"math/big"
+	"math/rand"
+	"reflect"
 	"strconv"
 	"strings"
 	"time"
@@ -592,3 +594,162 @@ func runC11PathArgs(w *core.W) {
 		}
 	}
 }
+
+// ErrSigCase: a host function of some signature returns an error. Whatever its parameter and result types are, evaluation
+// fails with an error that names the function and carries the returned error's text.
+type ErrSigCase struct {
+	Params []string `json:"params"`
+	Var    bool     `json:"variadic,omitempty"`
+	Ctx    bool     `json:"ctx,omitempty"`
+	Ret    string   `json:"ret"`
+	Member bool     `json:"member,omitempty"` // called as o.half(...)
+}
+
+var errSigArg = map[string]string{"any": "6", "dec": "6", "string": "'x'", "int": "6", "int64": "6", "float64": "6.5", "bool": "true", "strs": "['a']", "anys": "[1]", "time": "t0", "f64s": "[1.5]", "mapany": "mm"}
+
+var c11ErrSig = core.Mon(c11, "returned-error-any-signature", func(w *core.W, c *ErrSigCase) {
+	w.Count("error_signature_cases")
+	w.Nontrivial("errsig:" + core.HashStr(c))
+	var in []reflect.Type
+	if c.Ctx {
+		in = append(in, ctxType)
+	}
+	for i, p := range c.Params {
+		t := kindType[p]
+		if c.Var && i == len(c.Params)-1 {
+			t = reflect.SliceOf(t)
+		}
+		in = append(in, t)
+	}
+	retT := kindType[c.Ret]
+	calls := 0
+	fn := reflect.MakeFunc(reflect.FuncOf(in, []reflect.Type{retT, errorType}, c.Var), func(args []reflect.Value) []reflect.Value {
+		calls++
+		return []reflect.Value{reflect.Zero(retT), reflect.ValueOf(errors.New("boom-7f3a")).Convert(errorType)}
+	}).Interface()
+	var args []string
+	for _, p := range c.Params {
+		args = append(args, errSigArg[p])
+	}
+	data := map[string]interface{}{"half": fn, "o": map[string]interface{}{"half": fn}, "t0": c11Time, "mm": map[string]interface{}{"k": 1}}
+	src := "half(" + strings.Join(args, ", ") + ")"
+	if c.Member {
+		src = "1 + o." + src
+	}
+	v, err, panicked, pv := resolveInOnce(data, src)
+	w.Eval(1)
+	if panicked {
+		w.Violation("returned-error-any-signature", "C11/escaped-panic", c, "an error naming half", fmt.Sprint(pv), src)
+		return
+	}
+	if calls != 1 {
+		w.Violation("returned-error-any-signature", "C11/invocation-count", c, "1 call", fmt.Sprint(calls, " calls, ", err), src)
+		return
+	}
+	if err == nil {
+		w.Violation("returned-error-any-signature", "C11/returned-error-swallowed", c, "an error naming half", show(v), src)
+		return
+	}
+	if msg := err.Error(); !strings.Contains(msg, "half") || !strings.Contains(msg, "boom-7f3a") {
+		w.Violation("returned-error-any-signature", "C11/returned-error-does-not-name-the-function", c, "an error naming half and carrying boom-7f3a", msg,
+			fmt.Sprintf("%s where half is %s", src, reflect.TypeOf(fn)))
+	}
+})
+
+func runC11ErrSigs(w *core.W) {
+	i := 0
+	paramSets := [][]string{{}, {"any"}, {"dec"}, {"string"}, {"int"}, {"float64"}, {"dec", "dec"}, {"strs"}, {"anys"}, {"time"}, {"bool"}, {"int64"}, {"dec", "string"}, {"mapany"}, {"f64s"}}
+	for _, ps := range paramSets {
+		for _, ret := range []string{"any", "dec", "int", "float64", "string", "bool", "int64", "time", "strs"} {
+			for mode := 0; mode < 4; mode++ {
+				c := &ErrSigCase{Params: ps, Ret: ret, Ctx: mode&1 == 1, Member: mode&2 == 2}
+				if i++; w.Mine(i) {
+					c11ErrSig(w, c)
+				}
+				if len(ps) > 0 && mode == 0 {
+					vc := *c
+					vc.Var = true
+					if i++; w.Mine(i) {
+						c11ErrSig(w, &vc)
+					}
+				}
+			}
+		}
+	}
+}
+
+// FloatSweepCase: many short decimals handed to float64 and float32 parameters (fixed, variadic, slice element): each arrives
+// as the nearest float to the number written - decided by strconv on the literal's text, not by any shortcut.
+type FloatSweepCase struct {
+	Seed int64 `json:"seed"`
+	N    int   `json:"n"`
+}
+
+var c11FloatSweep = core.Mon(c11, "float-parameter-sweep", func(w *core.W, c *FloatSweepCase) {
+	r := rand.New(rand.NewSource(c.Seed))
+	var got64 []float64
+	var got32 []float32
+	data := map[string]interface{}{
+		"f64": func(x float64) (int, error) { got64 = append(got64, x); return 0, nil },
+		"f32": func(x float32) (int, error) { got32 = append(got32, x); return 0, nil },
+		"v64": func(xs ...float64) (int, error) { got64 = append(got64, xs...); return 0, nil },
+		"s64": func(xs []float64) (int, error) { got64 = append(got64, xs...); return 0, nil },
+	}
+	const batch = 48
+	for done := 0; done < c.N; done += batch {
+		var lits []string
+		for i := 0; i < batch; i++ {
+			nd := 4 + r.Intn(5)
+			d := digits(r, nd)
+			for d[0] == '0' {
+				d = digits(r, nd)
+			}
+			e := -(r.Intn(12)) - nd + r.Intn(4)
+			lits = append(lits, d+"e"+strconv.Itoa(e))
+		}
+		got64, got32 = got64[:0], got32[:0]
+		var parts []string
+		for i, l := range lits {
+			switch i % 4 {
+			case 0, 1:
+				parts = append(parts, "f64("+l+")")
+			case 2:
+				parts = append(parts, "v64("+l+")")
+			default:
+				parts = append(parts, "s64(["+l+"])")
+			}
+		}
+		for _, l := range lits[:8] {
+			parts = append(parts, "f32("+l+")")
+		}
+		src := "[" + strings.Join(parts, ", ") + "]"
+		_, err, panicked, pv := resolveInOnce(data, src)
+		w.Eval(1)
+		w.CountN("float_parameters_checked", int64(len(lits)+8))
+		if panicked || err != nil {
+			w.Violation("float-parameter-sweep", "C11/float-sweep-error", c, "values", fmt.Sprint(pv, err), clipS(src, 200))
+			return
+		}
+		if len(got64) != len(lits) || len(got32) != 8 {
+			w.Violation("float-parameter-sweep", "C11/invocation-count", c, fmt.Sprint(len(lits), "+8 calls"), fmt.Sprint(len(got64), "+", len(got32)), clipS(src, 200))
+			return
+		}
+		for i, l := range lits {
+			want, _ := strconv.ParseFloat(l, 64)
+			if got64[i] != want {
+				w.Violation("float-parameter-sweep", "C11/conversion:float64", c, strconv.FormatFloat(want, 'g', -1, 64), strconv.FormatFloat(got64[i], 'g', -1, 64),
+					fmt.Sprintf("the literal %s handed to a float64 parameter (form %d) is not the nearest float64", l, i%4))
+				return
+			}
+		}
+		for i, l := range lits[:8] {
+			want, _ := strconv.ParseFloat(l, 32)
+			if got32[i] != float32(want) {
+				w.Violation("float-parameter-sweep", "C11/conversion:float32", c, strconv.FormatFloat(want, 'g', -1, 32), strconv.FormatFloat(float64(got32[i]), 'g', -1, 32),
+					fmt.Sprintf("the literal %s handed to a float32 parameter is not the nearest float32", l))
+				return
+			}
+		}
+	}
+	w.Nontrivial(fmt.Sprintf("floatsweep|%d|%d", c.Seed, c.N))
+})
